@@ -75,11 +75,28 @@ func mpBuild(id int, raw json.RawMessage) *Job {
 		d.ends = append(d.ends, len(pc.Steps)-1)
 	}
 	q()
-	for _, e := range tc.Hist {
+	for ei, e := range tc.Hist {
+		// a seeded third of the events reach the server the way an atomic replace does: one notification carrying two
+		// events for the path (deleted+created for a file that now exists, created+deleted for one that does not)
+		double := hash64(string(raw), int64(ei)+scSeed)%3 == 0
+		batch := func(a, b int) proto.Step {
+			return proto.Step{M: "workspace/didChangeWatchedFiles", N: true,
+				P: json.RawMessage(fmt.Sprintf(`{"changes":[{"uri":"file://$ROOT/%s","type":%d},{"uri":"file://$ROOT/%s","type":%d}]}`, e.F, a, e.F, b))}
+		}
 		if e.Ev == "Create" {
-			pc.Steps = append(pc.Steps, proto.Step{M: "fs.write", Path: e.F, Text: mpFileText(e.F)}, watched(e.F, 1))
+			pc.Steps = append(pc.Steps, proto.Step{M: "fs.write", Path: e.F, Text: mpFileText(e.F)})
+			if double {
+				pc.Steps = append(pc.Steps, batch(3, 1))
+			} else {
+				pc.Steps = append(pc.Steps, watched(e.F, 1))
+			}
 		} else {
-			pc.Steps = append(pc.Steps, proto.Step{M: "fs.delete", Path: e.F}, watched(e.F, 3))
+			pc.Steps = append(pc.Steps, proto.Step{M: "fs.delete", Path: e.F})
+			if double {
+				pc.Steps = append(pc.Steps, batch(1, 3))
+			} else {
+				pc.Steps = append(pc.Steps, watched(e.F, 3))
+			}
 		}
 		q()
 	}
